@@ -213,6 +213,11 @@ def catalogue(exact):
         # the public operator classes constructed directly
         SM(T(1)), SM(L("int", -4)), mul(SM(L("unsigned", 3)), X(2)),
         sub(D(1), SM(T(2))),
+        # division by scalars of a narrower floating type whose reciprocal is
+        # inexact in that type
+        sc("E/c", X(1), flt("float", 3)), sc("E/c", V(1), flt("float", Fraction(5, 8))),
+        sc("E/c", mul(D(1), X(2)), flt("float", -7)),
+        sc("E/c", D(1), flt("double", 3)),
         # high powers and derivatives inside expressions
         X(5), X(6), X(7), D(5), D(6), D(7),
         sub(mul(D(1), X(5)), mul(X(5), D(1))),        # [d/dx, x^5] = 5 x^4
